@@ -141,7 +141,7 @@ class BaseProperty(base.BaseObject):
 
         self._dtype = None
         if dtypes.valid_type(dtype):
-            self._dtype = dtype
+            self._dtype = dtypes.normalize_type(dtype)
         else:
             print("Warning: Unknown dtype '%s'." % dtype)
 
@@ -262,7 +262,7 @@ class BaseProperty(base.BaseObject):
         old_type = self._dtype
         old_values = self._values
         try:
-            self._dtype = new_type
+            self._dtype = dtypes.normalize_type(new_type)
             self.values = old_values
         except:
             self._dtype = old_type  # If conversion failed, restore old dtype
